@@ -13,22 +13,40 @@ static inline void verif_register(void *p) { if (verif_nreg < 24) verif_reg[veri
 /* statically typed layouts of exact size (lengths fold, DESIGN 1.3) */
 struct vm_hdr { unsigned int tag; char markedp; unsigned char flags; unsigned short pad0; };
 static struct { struct vm_hdr h; unsigned long length, top; sexp data[VM_STACK_SLOTS]; } vm_stack_obj;
-static struct sexp_struct vm_ctx_obj;                      /* small-context shim: ~250 bytes */
+/* the context as a plain struct with the layout of struct sexp_struct's context variant (fields of
+ * a union written through the accessor casts do not fold); offsets checked against the real type */
+struct vm_ctx_t { struct vm_hdr h;
+  sexp stack, env, parent, child, globals, dk, params, proc, name, specific, event, result, dl;
+  sexp_heap heap; struct sexp_mark_stack_ptr_t mark_stack[SEXP_MARK_STACK_COUNT]; struct sexp_mark_stack_ptr_t *mark_stack_ptr;
+  struct sexp_gc_var_t *saves; sexp_sint_t refuel; unsigned char *ip; struct timeval tval;
+  char tailp, tracep, timeoutp, waitp, errorp, interruptp; sexp_uint_t last_fp, gc_count, gc_usecs; };
+static struct vm_ctx_t vm_ctx_obj;
+_Static_assert(offsetof(struct vm_ctx_t, stack) == offsetof(struct sexp_struct, value.context.stack)
+  && offsetof(struct vm_ctx_t, globals) == offsetof(struct sexp_struct, value.context.globals)
+  && offsetof(struct vm_ctx_t, saves) == offsetof(struct sexp_struct, value.context.saves)
+  && offsetof(struct vm_ctx_t, ip) == offsetof(struct sexp_struct, value.context.ip)
+  && offsetof(struct vm_ctx_t, waitp) == offsetof(struct sexp_struct, value.context.waitp)
+  && offsetof(struct vm_ctx_t, last_fp) == offsetof(struct sexp_struct, value.context.last_fp), "context layout");
 static struct { struct vm_hdr h; unsigned long length; sexp data[SEXP_G_NUM_GLOBALS]; } vm_globals_obj;
-static struct { struct vm_hdr h; sexp car, cdr, source; } vm_pairs[6];
-static int vm_npairs;
-static struct { struct vm_hdr h; sexp kind, message, irritants, procedure, source, stack_trace; } vm_excs[4];
-static int vm_nexcs;
-static struct { struct vm_hdr h; double value; } vm_flos[4];
-static int vm_nflos;
+/* pools: every slot its own top-level object (exact bounds; fields fold) */
+struct vm_pair_t { struct vm_hdr h; sexp car, cdr, source; };
+struct vm_exc_t { struct vm_hdr h; sexp kind, message, irritants, procedure, source, stack_trace; };
+struct vm_flo_t { struct vm_hdr h; double value; };
+static struct vm_pair_t vm_pair0, vm_pair1, vm_pair2, vm_pair3, vm_pair4, vm_pair5;
+static struct vm_exc_t vm_exc0, vm_exc1, vm_exc2, vm_exc3;
+static struct vm_flo_t vm_flo0, vm_flo1, vm_flo2, vm_flo3;
+static int vm_npairs, vm_nexcs, vm_nflos;
+#define VM_PAIR(k) ((k) == 0 ? &vm_pair0 : (k) == 1 ? &vm_pair1 : (k) == 2 ? &vm_pair2 : (k) == 3 ? &vm_pair3 : (k) == 4 ? &vm_pair4 : &vm_pair5)
+#define VM_EXC(k) ((k) == 0 ? &vm_exc0 : (k) == 1 ? &vm_exc1 : (k) == 2 ? &vm_exc2 : &vm_exc3)
+#define VM_FLO(k) ((k) == 0 ? &vm_flo0 : (k) == 1 ? &vm_flo1 : (k) == 2 ? &vm_flo2 : &vm_flo3)
 
 static inline sexp vm_new_pair(sexp a, sexp d) {
   __CPROVER_assert(vm_npairs < 6, "harness.bound: pair pool sufficed");
   __CPROVER_assume(vm_npairs < 6);
-  int k = vm_npairs++;
-  vm_pairs[k].h.tag = SEXP_PAIR; vm_pairs[k].car = a; vm_pairs[k].cdr = d; vm_pairs[k].source = SEXP_FALSE;
-  verif_register(&vm_pairs[k]);
-  return (sexp)&vm_pairs[k];
+  struct vm_pair_t *p = VM_PAIR(vm_npairs); vm_npairs++;
+  p->h.tag = SEXP_PAIR; p->car = a; p->cdr = d; p->source = SEXP_FALSE;
+  verif_register(p);
+  return (sexp)p;
 }
 /* contract of the exception constructors: kind a symbol or #f, message a string */
 static struct { struct vm_hdr h; unsigned long length; char data[2]; } vm_msg_bytes;
@@ -39,17 +57,19 @@ static inline sexp vm_new_exception(void) {
   vm_msg_bytes.h.tag = SEXP_BYTES; vm_msg_bytes.length = 1; vm_msg_bytes.data[0] = nondet_uchar(); vm_msg_bytes.data[1] = 0;
   vm_msg_str.h.tag = SEXP_STRING; vm_msg_str.bytes = (sexp)&vm_msg_bytes; vm_msg_str.offset = 0; vm_msg_str.length = 1;
   if (k == 0) { verif_register(&vm_msg_bytes); verif_register(&vm_msg_str); }
-  vm_excs[k].h.tag = SEXP_EXCEPTION; vm_excs[k].kind = SEXP_FALSE; vm_excs[k].message = (sexp)&vm_msg_str; vm_excs[k].irritants = SEXP_NULL;
-  vm_excs[k].procedure = SEXP_FALSE; vm_excs[k].source = SEXP_FALSE; vm_excs[k].stack_trace = SEXP_FALSE;
-  verif_register(&vm_excs[k]);
-  return (sexp)&vm_excs[k];
+  struct vm_exc_t *e = VM_EXC(k);
+  e->h.tag = SEXP_EXCEPTION; e->kind = SEXP_FALSE; e->message = (sexp)&vm_msg_str; e->irritants = SEXP_NULL;
+  e->procedure = SEXP_FALSE; e->source = SEXP_FALSE; e->stack_trace = SEXP_FALSE;
+  verif_register(e);
+  return (sexp)e;
 }
 static inline sexp vm_new_flonum(double d) {
   __CPROVER_assume(vm_nflos < 4);
   int k = vm_nflos++;
-  vm_flos[k].h.tag = SEXP_FLONUM; vm_flos[k].value = d;
-  verif_register(&vm_flos[k]);
-  return (sexp)&vm_flos[k];
+  struct vm_flo_t *f = VM_FLO(k);
+  f->h.tag = SEXP_FLONUM; f->value = d;
+  verif_register(f);
+  return (sexp)f;
 }
 
 /* an arbitrary immediate: any bit pattern that is not a pointer */
